@@ -352,6 +352,44 @@ def lattice_unit(col, size, cs, first_values):
                                "coords": list(cc)}, want, got)
 
 
+def lattice2_unit(col, size, css):
+    """a scale listing two chunk sizes: a position is valid iff it lies on
+    the grid of ONE of them (all three axes with the same chunk size)"""
+    from neuroglancer_scripts import precomputed_io
+    info = {"type": "image", "data_type": "uint8", "num_channels": 1,
+            "scales": [{"key": "s0", "size": size, "chunk_sizes": css,
+                        "resolution": [1, 1, 1], "voxel_offset": [0, 0, 0],
+                        "encoding": "raw"}]}
+    pio = precomputed_io.PrecomputedIO(info, None)
+    vals = []
+    for a in range(3):
+        v = set()
+        for cs in css:
+            v |= {0, cs[a], 2 * cs[a], cs[a] - 1, size[a], size[a] - 1}
+        vals.append(sorted(x for x in v if 0 <= x <= size[a]))
+    for cc in itertools.product(vals[0], vals[0], vals[1], vals[1], vals[2],
+                                vals[2]):
+        want = any(on_grid(cc, size, cs) for cs in css)
+        try:
+            got = bool(pio.validate_chunk_coords("s0", cc))
+        except Exception as exc:
+            got = "exception " + type(exc).__name__
+        nt = 1 if want else 0
+        if got == want:
+            col.ev(1, nt, "lattice-ok")
+        else:
+            col.ev(1, nt, "lattice-wrong")
+            kind = ("valid-position-refused" if want else
+                    "off-grid-position-accepted")
+            col.violation("C03/grid/" + kind + "/two-chunk-sizes",
+                          {"kind": "lattice2", "size": size, "chunks": css,
+                           "coords": list(cc)}, want, got)
+
+
+LATTICES2 = [([40, 36, 20], [[8, 8, 8], [16, 12, 4]]),
+             ([9, 7, 5], [[4, 4, 4], [3, 7, 2]])]
+
+
 def reject_unit(col, size, cs):
     """every rejected tuple one component away from a valid one is offered
     to write_chunk on a real dataset: must raise, tree must stay unchanged"""
@@ -451,6 +489,8 @@ def units(tier):
             u.append({"kind": "lattice", "size": size, "chunk": cs,
                       "first": [v]})
         u.append({"kind": "reject", "size": size, "chunk": cs})
+    for size, css in LATTICES2:
+        u.append({"kind": "lattice2", "size": size, "chunks": css})
     return u
 
 
@@ -468,6 +508,10 @@ def run_unit(u):
         explore(u["cfg"], u["depth"], col)
         col.sample({"cfg": u["cfg"], "history": [
             [0, [4, 5, 2, 4, 2, 3], "checker-be"]]})
+    elif u["kind"] == "lattice2":
+        lattice2_unit(col, u["size"], u["chunks"])
+        col.sample({"kind": "lattice2", "size": u["size"],
+                    "chunks": u["chunks"], "coords": [0, 8, 0, 8, 0, 8]})
     elif u["kind"] == "lattice":
         lattice_unit(col, u["size"], u["chunk"], u["first"])
         col.sample({"kind": "lattice", "size": u["size"], "chunk":
@@ -480,6 +524,10 @@ def run_unit(u):
 
 def replay(case):
     col = Collector()
+    if case.get("kind") == "lattice2":
+        lattice2_unit(col, case["size"], case["chunks"])
+        return [r for r in col.records()
+                if r["case"].get("coords") == case["coords"]]
     if case.get("kind") == "lattice":
         c = Collector()
         lattice_unit(c, case["size"], case["chunk"], [case["coords"][0]])
